@@ -349,6 +349,10 @@ class SlavePort(core_ports.BasePort):
         else:  # offline
             # Allow provisioning for offline devices
             self.debug('marking value for provisioning')
+
+            # Values received from the device that have not been read yet are superseded by this one; reading them later
+            # would overwrite the cached value, which is what will be provisioned
+            self._remote_value_queue.clear()
             self._cached_value = value
             self._provisioning.add('value')
             self.invalidate_attr('provisioning')
